@@ -43,6 +43,13 @@ def run(ctx):
     b = ctx.anchor("R1", LC + "::recv_retire_cid_frame")
     if b:
         takes = call_blocks(b, r"Option::take$")
+        # `slot.get_mut(seq).and_then(|v| v.take())`: the take sits in a closure, its outcome is the adaptor's result
+        for i_, t_ in b.calls():
+            if re.search(r"option::Option(<.*>|::<.*>)?::(and_then|map|take_if)$", callee(t_)):
+                for k_ in t_["f"].get("fns", []):
+                    kb = prog.bodies.get(k_)
+                    if kb is not None and call_blocks(kb, r"Option::take$") and i_ not in takes:
+                        takes.append(i_)
         ctx.floor("R1", "slot take sites in recv_retire_cid_frame", len(takes), 1)
         for tk in takes:
             oe = outcome_edges(b, tk)
